@@ -108,8 +108,14 @@ func genC05CaseFor(t *rapid.T, rule string) (c *ScalarCase, class string) {
 		setStr(genIPv4(t))
 	case "ipv6":
 		setStr(genIPv6(t))
+		if class == "near" && rapid.IntRange(0, 5).Draw(t, "zone") == 2 {
+			// an address with a zone (fe80::1%eth0) is no address for these rules
+			c.T, c.Val = strVal(genIPv6(t) + rapid.SampledFrom([]string{"%eth0", "%1", "%lo0"}).Draw(t, "zoneText"))
+		}
 	case "ip":
-		if rapid.Bool().Draw(t, "ipFamily") {
+		if class == "near" && rapid.IntRange(0, 7).Draw(t, "zone") == 2 {
+			c.T, c.Val = strVal(genIPv6(t) + rapid.SampledFrom([]string{"%eth0", "%1"}).Draw(t, "zoneText"))
+		} else if rapid.Bool().Draw(t, "ipFamily") {
 			setStr(genIPv4(t))
 		} else {
 			setStr(genIPv6(t))
